@@ -282,7 +282,7 @@ PROPS["C17"] = {
                   "with exact comparison, and the overwrite loop is compared bitwise with a real unrolled network holding the same weights",
     "level_note": "iterations <= 2 (3); sparse identity-like integer weights (vacuity guard: the accumulations must be distinguishable); multiply only for one iteration; mean over 3 tensors compared within 1e-5, everything else exactly",
     "rule": "one case = one (network, range, iterations, input skips) evaluated under 5 accumulations; all distinct; non-trivial = all",
-    "mc": [flow_mc("loop", ["{1, 2, 3, 4, 5}", 1, 3, 1, "{1, 2}", "FALSE"], ["{1, 2, 3, 4, 5}", 1, 4, 1, "{1, 2, 3}", "FALSE"]),
+    "mc": [flow_mc("loop", ["{1, 2, 3, 4, 5, 6}", 1, 3, 1, "{1, 2}", "FALSE"], ["{1, 2, 3, 4, 5, 6}", 1, 4, 1, "{1, 2, 3}", "FALSE"]),
            # two loop connections over disjoint ranges in one network, declared in either order
            flow_mc("loop", ["{1}", 2, 2, 1, "{1}", "FALSE"], ["{1, 2, 4, 5}", 2, 2, 1, "{1, 2}", "FALSE"])],
     "assumptions": FLOW_ASSUME,
